@@ -125,11 +125,59 @@ def apply_real(yatiml, unode, op, py_type_of):
         return 'fatal:' + type(e).__name__
 
 
+def directed_cases(ctx, n):
+    """a holder whose attributes are an enum (also with a str mix-in) with members spelt like YAML
+    booleans / nulls, a string-like, a class written with dashed keys, a class with a hand-written
+    recogniser that looks at the dashed spelling, and lists of them"""
+    yaml, yatiml = L.setup()
+    rng = ctx.rng
+    P = lambda nm, t, **kw: dict(name=nm, type=t, **kw)   # noqa: E731
+
+    def plain(name, params, **kw):
+        return dict(name=name, bases=[], registered=True, kind='plain', params=params, all_params=params,
+                    extra=False, abstract=None, define_init=True, **kw)
+    for _ in range(n):
+        kind = dict(name='Kind', bases=[], registered=True, kind='enum',
+                    members=rng.sample(['true', 'yes', 'red', 'null', 'on', 'false'], rng.randint(2, 4)))
+        if rng.random() < 0.6:
+            kind['str_mixin'] = True
+        word = dict(name='Word', bases=[], registered=True, kind=rng.choice(['str', 'userstring', 'yatimlstring']))
+        inner = plain('Inner', [P('line_width', ('int',)), P('max_open_count', CM.t_opt(('int',)), default=None)])
+        raw = plain('Raw', [P('line_width', ('int',))], recognize=[('rattr', 'line-width', None)])
+        holder = plain('Holder', [P('kind', ('cls', 'Kind')), P('style', ('cls', 'Inner')), P('word', ('cls', 'Word')),
+                                  P('kinds', ('seq', 'list', ('cls', 'Kind'))),
+                                  P('styles', ('map', 'dict', ('str',), ('cls', 'Inner')))])
+        spec = [kind, word, inner, raw, holder]
+        try:
+            doc = G.gen_doc(rng, spec, ('cls', 'Holder'))
+
+            def dash(d):
+                if d[0] == 'm':
+                    return ('m', [((G.S(k[1].replace('_', '-')) if k[0] == 's' and rng.random() < 0.6 else k),
+                                   dash(v)) for k, v in d[1]], d[2])
+                if d[0] == 'q':
+                    return ('q', [dash(x) for x in d[1]], d[2])
+                return d
+            doc = ('m', [(k, dash(v)) for k, v in doc[1]], doc[2])
+            if rng.random() < 0.3:
+                doc, _d = G.mutate(rng, doc, spec)
+            c = L.build_case(rng, yaml, yatiml, spec, ('cls', 'Holder'), doc, ('directed',))
+            L.run_case(c, yaml)
+            c.directed = True
+        except Exception as e:  # noqa
+            ctx.count('gen_error:' + type(e).__name__)
+            continue
+        ctx.count('directed_cases')
+        yield c
+
+
 def explore(ctx):
     yaml, yatiml = L.setup()
     rng = ctx.rng
     reqs, expected, descs = [], [], []
-    for c in LC.gen_cases(ctx, ctx.budget(500, 10000), mutate_p=0.5, alias_p=0):
+    import itertools
+    for c in itertools.chain(LC.gen_cases(ctx, ctx.budget(500, 10000), mutate_p=0.5, alias_p=0),
+                             directed_cases(ctx, ctx.budget(150, 3000))):
         if c.node is None or getattr(c, 'shared', False):
             continue
         # pick a sub-node (root or a nested mapping/scalar)
@@ -146,6 +194,8 @@ def explore(ctx):
                     walk(v)
         walk(c.node)
         node = rng.choice(cands[:1] * 3 + cands)
+        if getattr(c, 'directed', False):
+            node = c.node
         dict_attrs = []
         bad_keys = []
         if isinstance(node, yaml.MappingNode):
@@ -185,6 +235,15 @@ def explore(ctx):
                 t = None if rng.random() < 0.3 else G.gen_type(rng, avail, 2)
                 if t is not None and t[0] == 'map' and t[2] != ('str',):
                     t = None
+                # half of the time the type some class of the model declares for an attribute of that name
+                # (so that well-typed values - enums spelt like booleans, classes written with dashed
+                # keys, string-likes - are asked for by their own type)
+                declared = [p_['type'] for x in c.spec for p_ in x.get('params', [])
+                            if p_['name'] == a.replace('-', '_') and p_.get('type') is not None]
+                if declared and rng.random() < 0.5:
+                    t = rng.choice(declared)
+                    if t[0] == 'map' and t[2] != ('str',):
+                        t = None
                 if dict_attrs and rng.random() < 0.4:
                     a = rng.choice(dict_attrs)
                     inner = ('map', 'dict', ('str',), rng.choice([('any',), ('int',), ('str',), ('bool',)]))
@@ -209,11 +268,20 @@ def explore(ctx):
                 if not isinstance(v, (str, int, float, bool, type(None))):
                     v = 'a'
                 ops.append((rng.choice(['rval', 'rvalnot']), a, v))
+        if getattr(c, 'directed', False):
+            # every attribute asked for by its own declared type, twice (a call must not change what
+            # the next one sees), then by the other classes' types
+            holder = [x for x in c.spec if x['name'] == 'Holder'][0]
+            typed = [('rattr', p_['name'], p_['type']) for p_ in holder['params']]
+            rng.shuffle(typed)
+            others = [('rattr', p_['name'], ('cls', rng.choice(['Kind', 'Word', 'Inner', 'Raw'])))
+                      for p_ in holder['params']]
+            ops = typed + typed[:2] + others[:3] + ops[:2]
         py_type_of = c.model.py_type
         oracle = None
         try:
             import pipeline_oracle as PO
-            oracle = PO.Oracle(c.model, yaml, yatiml, c.real.loader_cls)
+            oracle = PO.Oracle(c.model, yaml, yatiml, c.real.loader_cls, lazy=True)
         except Exception:  # noqa  (custom recognisers etc.: outside the reference)
             oracle = None
         before = N.canon_node(yaml, node)
